@@ -273,3 +273,21 @@ def only_via_feasible(cfg, target, test_pred, label, flow=None):
                 seen.add(nxt)
                 todo.append(nxt)
     return True
+
+
+def facts_on_arrival(cfg, flow, target):
+    """Facts that hold on every feasible way from the entry to ``target`` (intersection over the explored states)."""
+    seen = set()
+    todo = [(cfg.entry, frozenset())]
+    at = None
+    while todo:
+        state = todo.pop()
+        if state in seen:
+            continue
+        seen.add(state)
+        node, facts = state
+        if node is target:
+            at = facts if at is None else (at & facts)
+        for s, lab, f2 in flow.successors(node, facts):
+            todo.append((s, f2))
+    return at or frozenset()
